@@ -25,4 +25,16 @@ CHECKS = {
                       "Trusts the vfs shim's op log (pass-through wrapper generated from the tree under test) and the independent block decoder.",
         "assumptions": ["prefix persistence model with torn last write", "an acknowledged Sync/Close makes all earlier writes durable"],
     },
+    "C03": {
+        "pkg": "storage", "run": "^TestC03", "level": "fault_enumeration", "overlay": "vfs", "tags": ["verifvfs"],
+        "shards": {"quick": 4, "thorough": 16},
+        "technique": "metamorphic property-based test (compaction = identity on the live state) over generated histories x entry points x leftover temp files, plus exhaustive crash-point enumeration over the compaction's recorded file operations",
+        "level_text": "Generated histories crossing the engine's compaction thresholds are compacted through every entry point (inline on write/close, load self-heal, "
+                      "ForceCompaction, v2.Compactor methods, CompactFromIndex, the CLI's compactSwamp) with generated leftover temp files; live state and swamp name "
+                      "must be identical before and after, later writes must reload. Every prefix of the compaction's own file-operation log, torn "
+                      "temp writes and 'rename persisted before the temp file's unsynced data' are materialised and must reload to exactly the pre-compaction state.",
+        "level_note": "Prefix persistence model plus the rename-before-fsync hazard; no directory-entry loss. The CompactSwamp RPC reaches the same chronicler.ForceCompaction "
+                      "that is driven directly here. Trusts the vfs shim op log and the harness state model.",
+        "assumptions": ["compaction is the identity on (live key -> value, swamp name)", "prefix persistence + rename-before-fsync hazard"],
+    },
 }
